@@ -205,8 +205,23 @@ func g9Zero(c *Ctx) {
 		}
 		if isLit && text == "nil" {
 			// the path's kind must be nilable, or unknown ("other") only when examined through Underlying()
+			// among the basic kinds only unsafe.Pointer (and the untyped nil) have a nil value
+			basicNil := false
+			if kind == "*types.Basic" && viaUnderlying {
+				for _, d := range in.decisions {
+					if strings.Contains(d.Sym, ".Kind()") && d.Choice < len(d.Cands) && d.Choice < len(d.Cands)-1 {
+						basicNil = true
+						for _, one := range strings.Split(d.Cands[d.Choice], ",") {
+							one = strings.TrimSpace(one)
+							if one != "types.UnsafePointer" && one != "types.UntypedNil" {
+								basicNil = false
+							}
+						}
+					}
+				}
+			}
 			switch {
-			case nilable[kind]:
+			case nilable[kind] || basicNil:
 				c.Rep.pass("G9")
 			case (kind == "" || kind == "other") && viaUnderlying:
 				// default arm after Underlying(): named types are already resolved; remaining non-nilable kinds are
